@@ -49,12 +49,16 @@ def run(ctx):
     core = ctx.repo.module('core')
     for cls, kw, xshape, fshape, rshape in CASES:
         one(ctx, core, cls, kw, xshape, fshape, rshape)
+    # few steps: the Richardson error estimate itself reaches the record (no Wynn stage for fewer than 3 rows)
+    for nsteps in (3, 4, 5):
+        for cls, kw, xshape, fshape, rshape in CASES[:2] + CASES[6:7] + CASES[9:10]:
+            one(ctx, core, cls, kw, xshape, fshape, rshape, nsteps)
     rep.notes['trusted_base'] = ['python ast', 'ndverif abstract interpreter, data-abstract domain, numpy summaries']
 
 
-def one(ctx, core, cls, kw, xshape, fshape, rshape):
+def one(ctx, core, cls, kw, xshape, fshape, rshape, nsteps=9):
     rep = ctx.rep
-    label = '%s/%s/x.shape=%s/f->%s' % (cls, ','.join('%s=%s' % i for i in sorted(kw.items())), xshape, fshape)
+    label = '%s/%s/x.shape=%s/f->%s/steps=%d' % (cls, ','.join('%s=%s' % i for i in sorted(kw.items())), xshape, fshape, nsteps)
     n = 1
     for s in xshape:
         n *= s
@@ -66,7 +70,7 @@ def one(ctx, core, cls, kw, xshape, fshape, rshape):
             f = bicomplex_aware(s, s.elementwise_f())
         else:
             f = tensor_f(s, n, fshape)
-        gen = StepGenModel(num_steps=9)
+        gen = StepGenModel(num_steps=nsteps)
         d = C(f, step=gen, full_output=True, **kw)
         x = s.x_array(xshape)
         return d(x)
